@@ -190,8 +190,10 @@ def real_layers(rep, rng):
 
 def main():
   rep = vlib.Report(PROP, "proof")
-  info = vlib.build_obligations(PROP)
-  errs = rep.obligations(info, "coqc -Q coq/theories QV coq/theories/Properties/C15.v")
+  from translate import foldgen
+  fgen = foldgen.emit(vlib.GEN)
+  info = vlib.build_obligations(PROP, gen_files=[fgen], extra_files=[os.path.join(vlib.COQ, "theories", "Link", "FoldLink.v")])
+  errs = rep.obligations(info, "python3 tools/translate/foldgen.py coq/gen && coqc coq/gen/FoldGen.v && coqc coq/theories/Link/FoldLink.v && coqc coq/theories/Properties/C15.v")
   for e in errs:
     rep.violation("obligation-" + os.path.basename(e["file"]), "proof obligation no longer checks: " + e["error"][-400:],
                   {"file": e["file"]}, no_input=True)
